@@ -14,6 +14,7 @@ import (
 )
 
 type detScenario struct {
+	Heavy bool // many concurrently loaded files: more repetitions, mostly on all CPUs
 	ID    int
 	Kind  string
 	Setup func(dir string) []string // writes inputs, returns argv (without binary)
@@ -44,9 +45,15 @@ func runDet(c *core.Ctx, bin, root string, sc detScenario, reps int) map[string]
 		out  string
 		exit int
 	}
+	if sc.Heavy {
+		reps *= 3
+	}
 	results := make([]res, reps)
 	core.Parallel(reps, func(k int) {
 		env := []string{fmt.Sprintf("GOMAXPROCS=%d", []int{1, 2, 16, 4}[k%4]), fmt.Sprintf("VERIF_SCHED_SEED=%d", sc.ID*131+k)}
+		if sc.Heavy {
+			env[0] = fmt.Sprintf("GOMAXPROCS=%d", []int{16, 16, 8, 16, 4, 16}[k%6])
+		}
 		r := core.Run(core.RunOpts{Dir: dir, Timeout: 60 * time.Second, Env: env}, bin, argv...)
 		ex := r.Exit
 		if r.TimedOut {
@@ -92,7 +99,7 @@ func C06(c *core.Ctx) {
 	id := 0
 	add := func(kind, desc string, setup func(dir string) []string) {
 		id++
-		scs = append(scs, detScenario{ID: id, Kind: kind, Desc: desc, Setup: setup})
+		scs = append(scs, detScenario{ID: id, Kind: kind, Desc: desc, Setup: setup, Heavy: kind == "heavy"})
 	}
 	// the README's example journal
 	doc := filepath.Join(core.RepoRoot, "doc")
@@ -147,6 +154,30 @@ func C06(c *core.Ctx) {
 				return append(append([]string{}, cmd...), lay.Write(dir))
 			})
 		}
+	}
+	// many files that all mention the same not-yet-registered commodities at the same time
+	for k := 0; k < c.Pick(2, 6); k++ {
+		k := k
+		add("heavy", fmt.Sprintf("%d quote files x 300 fresh tickers, balance -v", 50+10*k), func(dir string) []string {
+			var main strings.Builder
+			main.WriteString("2020-01-01 open Assets:Depot\n2020-01-01 open Equity:Equity\n\n")
+			for f := 0; f < 50+10*k; f++ {
+				name := fmt.Sprintf("quotes/d%03d.knut", f)
+				fmt.Fprintf(&main, "include \"%s\"\n", name)
+				var b strings.Builder
+				for t := 0; t < 300; t++ {
+					fmt.Fprintf(&b, "2020-%02d-%02d price T%03dX %d.%02d CHF\n", 1+f/28, 1+f%28, t, 10+t, f%100)
+				}
+				os.MkdirAll(filepath.Join(dir, "quotes"), 0o755)
+				os.WriteFile(filepath.Join(dir, name), []byte(b.String()), 0o644)
+			}
+			main.WriteString("\n")
+			for t := 0; t < 300; t += 7 {
+				fmt.Fprintf(&main, "2020-01-01 \"buy\"\nEquity:Equity Assets:Depot %d T%03dX\n\n", 1+t, t)
+			}
+			os.WriteFile(filepath.Join(dir, "main.knut"), []byte(main.String()), 0o644)
+			return []string{"balance", "--color=false", "-v", "CHF", "--months", "main.knut"}
+		})
 	}
 	// infer with tied candidates
 	for k := 0; k < c.Pick(6, 40); k++ {
